@@ -22,9 +22,12 @@ from vf import dense, history, opcat, programs, snapshot
 PID = "C02"
 LEVEL = "model_checking"
 ENGINE = "E2"
-TECHNIQUE = ("exhaustive enumeration of call histories (apply / .H / .N / repeated apply, three input dtypes) on fresh "
-             "real operator objects, stateless to a depth then de-duplicating BFS on array-digest states; byte snapshots "
-             "of inputs and captured arrays; replay determinism against the first-visit dense matrix")
+TECHNIQUE = ("exhaustive enumeration of call histories over nine events (apply with three input dtypes, .H, .N, .H.H, a deepcopy "
+             "of the operator, a twin operator built from other arrays, the operator applied to its own captured array) on "
+             "fresh real operator objects, stateless to a depth then de-duplicating BFS on array-digest states; byte snapshots "
+             "of inputs, captured and built-from arrays and of earlier results; replay determinism against the first-visit "
+             "dense matrix; for functions and prox operators: enumerated dtype x layout variants (C, Fortran, strided, "
+             "negative-stride, read-only), ordered pairs of calls in fresh interpreters, NumPy process state before/after")
 LEVEL_TEXT = ("Every call sequence up to the depth bound is executed on a fresh real operator; after every call the inputs "
               "and every array reachable from the operator are byte-compared with pristine twins and the output with the "
               "first-visit matrix, so mutation, hidden state and cache-order effects are decided for all histories within "
